@@ -132,6 +132,20 @@ def check_geometric_normalized(ctx, g):
     NN = g.params[1]
     ret = [r for r in walk_no_nested(g.node) if isinstance(r, ast.Return) and r.value is not None]
     name = ret[0].value.id if ret and isinstance(ret[0].value, ast.Name) else None
+    comp_norm = None   # the normalisation written as a comprehension in the return: [v/vec[-1] for v in vec] / [vec[i]/vec[-1] for i in range(N+1)]
+    if ret and isinstance(ret[0].value, ast.ListComp) and len(ret[0].value.generators) == 1 and not ret[0].value.generators[0].ifs:
+        gen = ret[0].value.generators[0]
+        if isinstance(gen.target, ast.Name):
+            v = gen.target.id
+            if isinstance(gen.iter, ast.Name):
+                name = gen.iter.id
+                comp_norm = Norm(None).poly(ret[0].value.elt) == Norm(None).poly(ast.parse("%s/%s[-1]" % (v, name), mode="eval").body)
+            else:
+                subs = {ast.unparse(x.value) for x in ast.walk(ret[0].value.elt) if isinstance(x, ast.Subscript) and isinstance(x.value, ast.Name)}
+                if len(subs) == 1:
+                    name = subs.pop()
+                    rb = ng.poly(gen.iter.args[0]) if isinstance(gen.iter, ast.Call) and ast.unparse(gen.iter.func) == "range" and len(gen.iter.args) == 1 else None
+                    comp_norm = rb == Poly.atom(NN) + 1 and Norm(None).poly(ret[0].value.elt) == Norm(None).poly(ast.parse("%s[%s]/%s[-1]" % (name, v, name), mode="eval").body)
     init = [s for s in g.node.body if isinstance(s, ast.Assign) and isinstance(s.targets[0], ast.Name) and s.targets[0].id == name]
     ok0 = bool(init) and isinstance(init[0].value, ast.List) and len(init[0].value.elts) == 1 and ng.poly(init[0].value.elts[0]) == Poly.const(0)
     ctx.check(ok0, "GeometricGrid.normalized starts at 0", detail="first normalised point is not 0", expected="%s = [0]" % name,
@@ -160,6 +174,8 @@ def check_geometric_normalized(ctx, g):
         i = l.target.id if isinstance(l.target, ast.Name) else None
         want = Norm(None).poly(ast.parse("%s[%s]/%s[-1]" % (name, i, name), mode="eval").body)
         okn = it == Poly.atom(NN) + 1 and ast.unparse(s.targets[0].slice) == i and Norm(None).poly(s.value) == want
+    if comp_norm is not None and not norml:
+        okn = comp_norm
     ctx.check(okn, "GeometricGrid.normalized ends at 1", detail="points are not divided by the last point",
               expected="for i in range(N+1): vec[i] = vec[i]/vec[-1]", found="; ".join(ast.unparse(s) for _, s in norml) or "no normalisation loop", fi=g)
     # growth: the running length is multiplied by the growth factor once per interval
@@ -472,10 +488,24 @@ def r06_5(ctx):
                 okc = okc and len(apps) == 1
                 if okc:
                     loops = scf.enclosing_loops(apps[0])
-                    okc = len(loops) == 1 and ast.unparse(loops[0][1]) == "self.T_local" and isinstance(loops[0][0], ast.Name)
+                    okc = len(loops) == 1
                     if okc:
-                        e = loops[0][0].id
-                        okc = Norm(None).poly(apps[0].args[0]) == Poly.atom("%s[-1]" % nm) + Poly.atom(e)
+                        # accepted loop headers: for e in T_local / for k, e in enumerate(T_local) / for k in range(len(T_local))
+                        tgt, it = loops[0][0], loops[0][1]
+                        idx = elem = None
+                        if ast.unparse(it) == "self.T_local" and isinstance(tgt, ast.Name):
+                            elem = tgt.id
+                        elif ast.unparse(it) == "enumerate(self.T_local)" and isinstance(tgt, ast.Tuple) and len(tgt.elts) == 2 and all(isinstance(x, ast.Name) for x in tgt.elts):
+                            idx, elem = tgt.elts[0].id, tgt.elts[1].id
+                        elif ast.unparse(it) == "range(len(self.T_local))" and isinstance(tgt, ast.Name):
+                            idx, elem = tgt.id, "self.T_local[%s]" % tgt.id
+                        got = Norm(None).poly(apps[0].args[0])
+                        elems = [Poly.atom(elem)] if elem else []
+                        if idx and elem:
+                            elems.append(Poly.atom("self.T_local[%s]" % idx))
+                        # the list has k+1 entries when interval k is appended: cumsum[-1] and cumsum[k] are the same entry
+                        lasts = [Poly.atom("%s[-1]" % nm)] + ([Poly.atom("%s[%s]" % (nm, idx))] if idx else [])
+                        okc = any(got == a + b for a in lasts for b in elems)
             ctx.check(okc, "control grid assembly (%s)" % cond, detail="cumulative sum of local interval lengths",
                       expected="hcat([t0, t0+T_0, t0+T_0+T_1, ...])", found=ast.unparse(a.value), fi=fin, node=a)
     bf = [c for c in walk_no_nested(fin.node) if is_call_to(c, "bounds_finalize", "self.time_grid")]
